@@ -92,3 +92,16 @@ func BzTargeted(rng *rand.Rand) []BzCase {
 	}
 	return out
 }
+
+// BzKraftCombos: blocks whose trees are each under-subscribed while their
+// Kraft sums add up to exactly one (1/2+1/2, 3/4+1/4, 1/2+1/4+1/4, ...).
+// libbzip2 decodes them; a decoder must treat every tree on its own.
+func BzKraftCombos(rng *rand.Rand) []BzCase {
+	var out []BzCase
+	for _, k := range [][]int{{1, 1}, {3, 2}, {2, 3}, {1, 2, 2}, {2, 2, 1}, {2, 1, 2}, {1, 1, 0}, {0, 1, 1}, {2, 2, 2, 2}, {1, 0}} {
+		o := synthOpts{level: 1 + rng.Intn(9), nblocks: 1, nstreams: 1, plain: true, kraft: k}
+		s, _ := synthStream(rng, o)
+		out = append(out, BzCase{"synth-kraft-combo", s})
+	}
+	return out
+}
